@@ -118,8 +118,121 @@ func c07R1(c *Ctx) {
 			}
 		}
 	})
+	// … or a table of handlers that Update indexes with the key: map[byte]func(*State)
+	// filled by the package initialiser with constant keys
+	tableFn := map[string]*ssa.Function{}
+	eachInstr(upd, func(_ *ssa.BasicBlock, _ int, in ssa.Instruction) {
+		lk, ok := in.(*ssa.Lookup)
+		if !ok || unwrapLoad(lk.Index) != ssa.Value(input) {
+			return
+		}
+		u, ok := lk.X.(*ssa.UnOp)
+		if !ok {
+			return
+		}
+		g, ok := u.X.(*ssa.Global)
+		if !ok || !effectivelyConstGlobal(P, g) {
+			return
+		}
+		// the looked-up function must be what is called
+		called := false
+		for _, r := range refs(lk) {
+			var fv ssa.Value = lk
+			if ex, isEx := r.(*ssa.Extract); isEx && ex.Index == 0 {
+				fv = ex
+			} else if _, isCall := r.(ssa.CallInstruction); !isCall {
+				continue
+			}
+			for _, rr := range refs(fv) {
+				if ci, isCall := rr.(ssa.CallInstruction); isCall && ci.Common().Value == fv {
+					called = true
+				}
+			}
+		}
+		if !called {
+			return
+		}
+		for _, fn := range P.Funcs {
+			if fn.Synthetic == "" || fn.Name() != "init" || fn.Pkg != g.Pkg {
+				continue
+			}
+			eachInstr(fn, func(_ *ssa.BasicBlock, _ int, in2 ssa.Instruction) {
+				mu, ok := in2.(*ssa.MapUpdate)
+				if !ok {
+					return
+				}
+				// the map that ends up in g
+				stored := false
+				for _, r := range refs(mu.Map) {
+					if st, ok := r.(*ssa.Store); ok && st.Addr == ssa.Value(g) {
+						stored = true
+					}
+				}
+				k, isC := constInt(mu.Key)
+				if !stored || !isC {
+					return
+				}
+				var hf *ssa.Function
+				switch v := mu.Value.(type) {
+				case *ssa.Function:
+					hf = v
+				case *ssa.MakeClosure:
+					hf, _ = v.Fn.(*ssa.Function)
+				}
+				if hf == nil {
+					return
+				}
+				name := string(rune(k))
+				if k == ' ' {
+					name = "space"
+				}
+				tableFn[name] = hf
+				tested[k] = true
+			})
+		}
+	})
 	for _, key := range docReadme {
 		want := keymapHandlers[key]
+		if hf := tableFn[key]; hf != nil && handled[key] == nil {
+			// what the handler in the table calls, one level of the package's own helpers deep
+			calls := map[string]bool{}
+			seen := map[*ssa.Function]bool{}
+			var walk func(f *ssa.Function, d int)
+			walk = func(f *ssa.Function, d int) {
+				if seen[f] || d > 2 {
+					return
+				}
+				seen[f] = true
+				for _, af := range f.AnonFuncs {
+					walk(af, d)
+				}
+				eachInstr(f, func(_ *ssa.BasicBlock, _ int, in ssa.Instruction) {
+					if cc := callOf(in); cc != nil {
+						if fo := calleeObj(cc); fo != nil {
+							calls[fo.Name()] = true
+						}
+						if sc := cc.StaticCallee(); sc != nil && P.PkgOf(sc) == "servitor/ui" && !anchorFuncs[anchorKeyOf(sc)] {
+							walk(sc, d+1)
+						}
+					}
+				})
+			}
+			walk(hf, 0)
+			var got []string
+			for k := range calls {
+				got = append(got, k)
+			}
+			sort.Strings(got)
+			wrong := ""
+			for _, other := range []string{"MoveDown", "MoveUp", "MoveToCenter", "Back", "Forward"} {
+				if other != want && calls[other] {
+					wrong = other
+				}
+			}
+			c.check(want != "" && calls[want] && wrong == "", "keymap/handler:"+key, P.Pos(hf.Pos()), FuncName(upd),
+				"'"+key+"' calls "+want+" (handler found in the table Update indexes with the key)", fmt.Sprintf("the handler for key '%s' in the key table calls %v; the keymap says it calls %s (and none of the other movement functions)", key, got, want))
+			continue
+		}
 		body, ok := handled[key]
 		if !ok {
 			c.bad("keymap/handles:"+key, P.Pos(upd.Pos()), FuncName(upd), "documented key '"+key+"' is not handled by Update")
@@ -770,4 +883,17 @@ func c07R6(c *Ctx) {
 		})
 	}
 	c.info("history_adds", n)
+}
+
+// anchorKeyOf: the key of fn in the anchor inventory ("pkg.Name" or "pkg.(T).Name").
+func anchorKeyOf(fn *ssa.Function) string {
+	if fn.Pkg == nil {
+		return ""
+	}
+	if recv := fn.Signature.Recv(); recv != nil {
+		if n := namedOf(recv.Type()); n != nil {
+			return fn.Pkg.Pkg.Path() + ".(" + n.Obj().Name() + ")." + fn.Name()
+		}
+	}
+	return fn.Pkg.Pkg.Path() + "." + fn.Name()
 }
